@@ -176,6 +176,12 @@ class AsyncClient(base_client.BaseClient):
                 base_client.connected_clients.remove(self)
             except ValueError:  # pragma: no cover
                 pass
+        elif self.state == 'disconnecting':
+            # the connection is being taken down by another call, which
+            # resets the client when it is done; resetting it from here
+            # would let a new connection start that the first call then
+            # tears down
+            return
         await self._reset()
 
     def start_background_task(self, target, *args, **kwargs):
